@@ -150,7 +150,17 @@ def r3_shutdown_protocol(ctx):
         # restart event iff a time was given
         atoms = [a for _, a in path_atoms(f, path, decs)]
         inner = [a for a in atoms if a[0] == 'is' and a[1][0] == 'field' and a[1][1][0] == 'as' and a[1][1][2] == 'Some']
-        given = any(a[2] == 'Some' for a in inner)
+        def carries_time(variant):
+            # pinned representation Option<Option<SimTime>>: inner Some; or a private request enum whose variant holds the restart time
+            if variant == 'Some':
+                return True
+            for k, adt in ctx.P.adts.items():
+                if adt.get('kind') == 'enum' and k.startswith('des::net::'):
+                    for v in adt.get('variants', []):
+                        if v.get('n') == variant and any('SimTime' in fd['ty'] for fd in v['fields']):
+                            return True
+            return False
+        given = any(isinstance(a[2], str) and carries_time(a[2]) for a in inner)
         ok = (len(restart) == 1) if given else (len(restart) == 0)
         detail = {'restart_time_given': given, 'restart_events': len(restart)}
         if ok and given:
